@@ -1,11 +1,13 @@
 /- yvdrv — line-protocol driver: one JSON case per stdin line, one JSON result per stdout line. -/
 import YV.Drv.C01
+import YV.Drv.XB
 open Lean YV.Drv
 
 def dispatch (j : Json) : List (String × Json) :=
   match jstr j "k" with
   | "c01" => C01.handle j
   | "sf" => C01.handleSF j
+  | "xbuild" => XB.handle j
   | k => [("m", Json.str ("unknown-kind:" ++ k)), ("s", Json.str "unknown-kind")]
 
 partial def loop (hin : IO.FS.Stream) (hout : IO.FS.Stream) : IO Unit := do
